@@ -245,7 +245,7 @@ ADDED3 = {
  "C10": "Experiment-name collisions in list and YAML syntax.",
  "C12": "Record-level BAM split (secondary records in another file), equal-span primary/secondary records, part files with equal base names.",
  "C13": "Multi-cluster runs over the annotation grammar x second-gene kinds.",
- "C14": "Annotation with two introns within delta of each other (3-bp alternative acceptor); tiny terminal blocks.",
+ "C14": "Annotation with two introns within delta of each other (3-bp alternative acceptor); tiny terminal blocks; part C: annotation-free runs with --illumina_bam (1-3 short-read files x 3 intron sets) compared with the corrector on the complete intron set.",
  "C15": "History of three restarts from the same saved assignments; table-group and two-BAM reuse worlds; non-ASCII strings.",
  "C16": "Upstream-extension invariance of the tail detector.",
  "C17": "Chromosome names containing the separators of the id scheme (distributor and pipeline chain).",
